@@ -154,8 +154,10 @@ func (s *Solver) GetValues(names []string) (map[string]string, error) {
 	if len(names) == 0 {
 		return res, nil
 	}
+	t0 := time.Now()
 	s.Send("(get-value (" + strings.Join(names, " ") + "))")
 	r, err := s.readSexp()
+	s.Time += time.Since(t0)
 	if err != nil {
 		return nil, err
 	}
